@@ -46,6 +46,51 @@ def env_alternatives(entries):
 PENV = {"pe": "1"}
 RAWFD = [40, 41, 42]
 
+UNIT_BYTES = {0: 0, 1: 1, 3: 65537}     # SpawnFlow.tla's payload units -> bytes (pipe capacity 2 units = 65536)
+
+
+def payload(n):
+    return bytes((i * 7 + 13) % 251 for i in range(n))
+
+
+def adler(data):
+    a, b = 1, 0
+    for c in data:
+        a = (a + c) % 65521
+        b = (b + a) % 65521
+    return a, b
+
+
+def flow_expect(out):
+    """SpawnFlow.tla outcome -> (driver ops, payload bytes, expected io results for the judge, may hang)"""
+    nbytes = UNIT_BYTES[out["plan"]["n"]]
+    copied = UNIT_BYTES.get(out["cgot"], -1)
+    exp = []
+    for r in out["res"]:
+        op = r["op"]
+        if op == "wait":
+            continue
+        e = {"op": op, "res": r["res"], "n": 0, "a": 0, "b": 0, "head": "*"}
+        if op == "W":
+            e["n"] = UNIT_BYTES.get(r["n"], -1) if r["res"] == "ok" else (0 if r["res"] == "nopipe" else -1)
+        elif op == "RO" and r["res"] == "eof":
+            k = UNIT_BYTES.get(r["n"], -1)
+            e["n"] = k
+            if k >= 0:
+                e["a"], e["b"] = adler(payload(nbytes)[:k])
+        elif op == "RE" and r["res"] == "eof":
+            e["n"] = -1
+            if r["n"] == 2 and copied >= 0:
+                text = "ERRMARK\nERR:%d\n" % copied
+                e["n"] = len(text)
+                e["a"], e["b"] = adler(text.encode())
+                e["head"] = text
+            elif r["n"] == 0:
+                e["n"], e["a"], e["b"], e["head"] = 0, 1, 0, ""
+        exp.append(e)
+    return list(out["plan"]["ops"]), nbytes, exp, bool(out["hung"])
+
+
 VARIANTS = {
     # name: (cargo template, StartFeature of the model, admissible extra environments for env=default)
     # std-linked + `start`: tiny-std's ENV.env_p is only set by tiny-std's own _start, which a
@@ -131,6 +176,43 @@ def _action_coverage(chk):
     return cov
 
 
+def flow_outcomes(chk, dev=()):
+    """SpawnFlow.tla: every caller plan over the Child's pipes -> its outcome (results per op, hang or not)"""
+    path = os.path.join(chk.work, "SpawnFlow_%s.cfg" % ("-".join(dev) or "ok"))
+    with open(path, "w") as f:
+        f.write("CONSTANTS\n  CAP = 2\n  Dev = {%s}\n  Plans <- PlansAll\nINIT Init\nNEXT Next\n"
+                "INVARIANTS Delivered SaneNeverHangs%s\nCHECK_DEADLOCK TRUE\n" % (", ".join('"%s"' % d for d in dev), "" if dev else " Emit"))
+    md = os.path.join(core.WORK, "tlc-meta", "SpawnFlow-%d-%s" % (os.getpid(), "-".join(dev) or "ok"))
+    return core.run_tlc("SpawnFlow_MC.tla", path, workers=2, timeout=1800, metadir=md)
+
+
+def _selftest_flow(chk, dev):
+    r = flow_outcomes(chk, dev=(dev,))
+    if "SaneNeverHangs" not in r.invariant_violated:
+        raise core.ToolError("flow model self-test: stray end %s does not make a sane plan hang in SpawnFlow.tla:\n%s" % (dev, r.out[-1200:]))
+    return True
+
+
+def select_flows(outs, tier, rng):
+    ok = [o for o in outs if not o["hung"]]
+    hung = [o for o in outs if o["hung"]]
+    key = lambda o: json.dumps(o["plan"], sort_keys=True)
+    ok.sort(key=key)
+    hung.sort(key=key)
+    rng.shuffle(ok)
+    rng.shuffle(hung)
+    if tier == "quick":
+        # every stdio table x payload at least once among the plans that end, a few that block by themselves
+        seen, pick = set(), []
+        for o in ok:
+            k = (tuple(o["plan"]["io"]), o["plan"]["n"])
+            if k not in seen or (o["plan"]["io"] == ["pipe", "pipe", "pipe"] and len([1 for x in pick if x["plan"]["io"] == o["plan"]["io"]]) < 14):
+                seen.add(k)
+                pick.append(o)
+        return pick, hung[:5]
+    return ok[:1200], hung[:40]
+
+
 def model_selftest_jobs(chk, ex):
     """The named deviations of the pinned tree must be exhibited by TLC in the model (anti-vacuity
     of the invariants), and every probe state must be reachable."""
@@ -138,6 +220,8 @@ def model_selftest_jobs(chk, ex):
     for dev, start in (("ChildReturnsErr", True), ("ExecveNegErrno", True), ("EnvTestInverted", False), ("WaitHoldsPipes", True),
                        ("TryWaitNoCache", True)):
         futs[dev] = ex.submit(_selftest_dev, chk, dev, start)
+    for dev in ("ParentKeepsOutWrite", "ChildKeepsInWrite"):
+        futs["flow:" + dev] = ex.submit(_selftest_flow, chk, dev)
     for probe in ("ProbeOk", "ProbeErrParent", "ProbeErrChild", "ProbeWaited", "ProbeWaitedTwice", "ProbeTryNone"):
         futs[probe] = ex.submit(_selftest_probe, chk, probe)
     return futs
@@ -147,7 +231,7 @@ def model_selftest_jobs(chk, ex):
 # plan selection
 # ------------------------------------------------------------------------------------------------
 def plan_key(p):
-    return json.dumps([p["cfg"], p["fault"]], sort_keys=True)
+    return json.dumps([p["cfg"], p["fault"], p.get("round", 1)], sort_keys=True)
 
 
 def natural_failure(cfg):
@@ -205,7 +289,8 @@ WAIT_HELPERS = ["h7", "h137", "k9"]
 
 def helper_name(idx, stdin_pipe=False, override=None):
     # ...r: the helper reads its stdin to the end before it dumps and exits
-    return (override or HELPERS[idx % len(HELPERS)]) + ("r" if stdin_pipe else "")
+    name = override or HELPERS[idx % len(HELPERS)]
+    return name if name.endswith("c") else name + ("r" if stdin_pipe else "")
 
 
 def concretise(plan, rundir, variant, idx, helper=None):
@@ -223,7 +308,10 @@ def concretise(plan, rundir, variant, idx, helper=None):
              "cwd": cwd, "uid": idval(cfg["uid"], os.getuid()), "gid": idval(cfg["gid"], os.getgid()),
              "pgroup": 0 if cfg["pg"] == "own" else None,
              "pre_exec": list(cfg["pre"]), "open": [], "wait": wseq,
-             "bulk": idx % 2 == 1, "feed": ("feed%d" % idx) if cfg["io"][0] == "pipe" else None}
+             "bulk": idx % 2 == 1, "feed": ("feed%d" % idx) if cfg["io"][0] == "pipe" else None,
+             "payload": 0, "respawn": None}
+    if cfg.get("respawn", "none") != "none":
+        dplan["respawn"] = {"extra": "a3" if cfg["respawn"] == "arg" else None}
     for s in range(3):
         m = io[s]
         if m == "inherit":
@@ -239,7 +327,12 @@ def concretise(plan, rundir, variant, idx, helper=None):
          "cwd": cwd if cwd else "unset", "pcwd": os.path.realpath(rundir),
          "uid": -1 if dplan["uid"] is None else dplan["uid"], "puid": os.getuid(),
          "gid": -1 if dplan["gid"] is None else dplan["gid"], "pgid": os.getgid(),
-         "pg": 0 if cfg["pg"] == "own" else -1, "io": io, "pre": list(cfg["pre"]), "feed": dplan["feed"] or ""}
+         "pg": 0 if cfg["pg"] == "own" else -1, "io": io, "pre": list(cfg["pre"]), "feed": dplan["feed"] or "",
+         "flow": [], "mayHang": False}
+    if plan.get("flow"):
+        ops, nbytes, exp, hang = flow_expect(plan["flow"])
+        dplan.update({"wait": ops, "payload": nbytes, "feed": None})
+        c.update({"flow": exp, "mayHang": hang, "feed": ""})
     dplan["envnone"] = False
     if variant == "noalloc" and idx % 2 == 1:
         # Environment::None chosen explicitly: the configured environment is the empty one
@@ -298,6 +391,8 @@ def execute(job):
     for n in ("drv_in", "drv_out", "drv_err"):
         open(os.path.join(rundir, n), "w").close()
     dplan, c, inj = concretise(job["plan"], rundir, job["variant"], job["idx"], job.get("helper"))
+    if c["mayHang"]:
+        job = dict(job, timeout_ms=1500, noconfirm=True)   # SpawnFlow.tla: this plan blocks by itself
     with open(os.path.join(rundir, "plan.json"), "w") as fh:
         json.dump(dplan, fh)
     log = os.path.join(rundir, "log.ndjson")
@@ -328,17 +423,57 @@ def execute(job):
     for dpath in _glob.glob(helper + ".*.dump"):
         d = json.loads(open(dpath).read())
         dumps[d["pid"]] = d
-    dump = next(iter(dumps.values())) if len(dumps) == 1 else None
-    info = info_from_tracer(job["idx"], c, tr) if probe else info_from_driver(job["idx"], c, dv)
-    events = assemble(job["idx"], c, tr, info, dump)
-    if any(e["ev"] == "anomaly" and e["what"] == "TimedOut" for e in events):
+    segs = split_rounds(tr)
+    out = []
+    for rnd, seg in enumerate(segs, start=1):
+        cr = c if rnd == 1 else dict(c, args=c["args"] + ([dplan["respawn"]["extra"]] if dplan["respawn"] and dplan["respawn"]["extra"] else []))
+        cpid = next((e.get("pid") for e in seg if e["ev"] == "fork" and e["child"] == 2), None)
+        dump = dumps.get(cpid)
+        info = info_from_tracer(job["idx"], cr, seg) if probe else info_from_driver(job["idx"], cr, dv, rnd)
+        ridx = job["idx"] + (ROUND2 if rnd == 2 else 0)
+        events = assemble(ridx, cr, seg, info, dump)
+        out.append({"idx": ridx, "events": events, "c": cr, "dplan": dplan, "inj": inj, "tracer": seg, "driver": dv, "dump": dump,
+                    "helper_kind": os.path.basename(helper).rstrip("rc"), "round": rnd})
+    if any(e["ev"] == "anomaly" and e["what"] == "TimedOut" for r in out for e in r["events"]) and not c["mayHang"]:
         if job.get("timeout_ms", 4000) < 20000 and not job.get("noconfirm"):
             # a hang of the code under test is deterministic; a slow machine is not: confirm with a long watchdog
             return execute(dict(job, timeout_ms=20000))
         with HANG_LOCK:
             HANGS["n"] += 1
-    return {"idx": job["idx"], "events": events, "c": c, "dplan": dplan, "inj": inj, "tracer": tr, "driver": dv, "dump": dump,
-            "helper_kind": os.path.basename(helper).rstrip("r")}
+    first = out[0]
+    first["second"] = out[1] if len(out) > 1 else None
+    return first
+
+
+ROUND2 = 500000    # run ids of the second spawn of a re-used Command
+
+
+def split_rounds(tr):
+    """one segment of the tracer's log per spawn call of the caller (markers spawn:begin of task 1); a
+    child belongs to the call during which it was forked and is renumbered 2, so that each segment reads
+    like a single spawn"""
+    rnd = 0
+    segs = [[]]
+    owner = {}
+    for e in tr:
+        t = e.get("task")
+        if e["ev"] == "mark" and t == 1 and e["text"] == "spawn:begin":
+            rnd += 1
+            if rnd == 2:
+                segs.append([])
+        cur = len(segs) - 1
+        if e["ev"] == "fork":
+            if e["parent"] == 1 and e["child"] not in owner and cur not in owner.values():
+                owner[e["child"]] = cur
+                segs[cur].append(dict(e, child=2))
+            else:
+                segs[cur].append(e)         # an unexpected further task: the judge flags it
+            continue
+        if t is not None and t != 1 and t in owner:
+            segs[owner[t]].append(dict(e, task=2))
+        else:
+            segs[cur].append(e)
+    return segs
 
 
 def probe_args(dplan):
@@ -359,17 +494,26 @@ def probe_args(dplan):
         a.append("bulk=1")
     if dplan.get("feed"):
         a.append("feed=" + dplan["feed"])
+    if dplan.get("payload"):
+        a.append("payload=%d" % dplan["payload"])
+    if dplan.get("respawn"):
+        a.append("respawn=" + (dplan["respawn"]["extra"] or "same"))
     return a
 
 
 NOFD = {"link": "", "acc": -1}
 
 
-def info_from_driver(idx, c, dv):
+def io_events_of_driver(dv, rnd):
+    return [{"ev": "io", "op": e["op"], "res": e["res"], "n": int(e.get("n", 0)), "a": int(e.get("a", 0)), "b": int(e.get("b", 0)),
+             "head": e.get("head", "")} for e in dv if e.get("ev") == "io" and e.get("round", 1) == rnd]
+
+
+def info_from_driver(idx, c, dv, rnd=1):
     """what the std-linked driver reported about itself: descriptors before spawn, the Child's pipes, wait"""
     drv = next((e for e in dv if e.get("ev") == "driver"), None)
-    ret = next((e for e in dv if e.get("ev") == "returned"), None)
-    waited = [{"res": e["res"], "status": e.get("status") or 0} for e in dv if e.get("ev") == "waited"]
+    ret = next((e for e in dv if e.get("ev") == "returned" and e.get("round", 1) == rnd), None)
+    waited = [{"res": e["res"], "status": e.get("status") or 0} for e in dv if e.get("ev") == "waited" and e.get("round", 1) == rnd]
     if drv is None:
         raise core.ToolError("driver wrote no 'driver' event (run %d)" % idx)
     pipes = []
@@ -378,7 +522,8 @@ def info_from_driver(idx, c, dv):
         pipes.append({"link": pe["link"], "acc": pe["acc"]} if pe else dict(NOFD))
     return {"dio": [fdent(drv["fds"], i) for i in range(3)],
             "raw": [fdent(drv["fds"], RAWFD[i]) if c["io"][i] == "raw" else dict(NOFD) for i in range(3)],
-            "pipes": pipes, "pgrp": drv["pgrp"], "waited": waited}
+            "pipes": pipes, "pgrp": drv["pgrp"], "waited": waited, "ios": io_events_of_driver(dv, rnd),
+            "pfds": [{"fd": e["fd"], "link": e["link"], "acc": e["acc"]} for e in (ret or {}).get("fds", [])] if ret and ret.get("res") == "ok" else []}
 
 
 def info_from_tracer(idx, c, tr):
@@ -394,13 +539,19 @@ def info_from_tracer(idx, c, tr):
         nums = [int(x) for x in rmark["text"].split(":")[2].split(",")]
         pipes = [fdent(retfds["fds"], n) if n >= 0 else dict(NOFD) for n in nums]
     waited = []
+    ios = []
     for e in tr:
         if e["ev"] == "mark" and e["task"] == 1 and e["text"].startswith("waited:"):
             t = e["text"].split(":")      # waited:<op>:<ok|none|err>:<status|code|none>
             waited.append({"res": t[2], "status": int(t[3]) if t[3].lstrip("-").isdigit() else 0})
+        if e["ev"] == "mark" and e["task"] == 1 and e["text"].startswith("io:"):
+            t = e["text"].split(":")      # io:<op>:<res>:<n>:<a>:<b>:<head hex>
+            ios.append({"ev": "io", "op": t[1], "res": t[2], "n": int(t[3]), "a": int(t[4]), "b": int(t[5]),
+                        "head": bytes.fromhex(t[6]).decode("latin-1") if len(t) > 6 and t[6] else ""})
     return {"dio": [fdent(begin["fds"], i) for i in range(3)],
             "raw": [fdent(begin["fds"], RAWFD[i]) if c["io"][i] == "raw" else dict(NOFD) for i in range(3)],
-            "pipes": pipes, "pgrp": begin["pgrp"], "waited": waited}
+            "pipes": pipes, "pgrp": begin["pgrp"], "waited": waited, "ios": ios,
+            "pfds": [{"fd": e["fd"], "link": e["link"], "acc": e["acc"]} for e in retfds["fds"]] if (rmark and retfds) else []}
 
 
 def fdent(table, fd):
@@ -412,7 +563,7 @@ def fdent(table, fd):
 
 def assemble(idx, c, tr, info, dump):
     """merge tracer log, driver-reported facts and helper dump into the event list SpawnTrace.tla reads"""
-    facts = {"dio": info["dio"], "raw": info["raw"], "pipes": info["pipes"], "pgrp": info["pgrp"]}
+    facts = {"dio": info["dio"], "raw": info["raw"], "pipes": info["pipes"], "pgrp": info["pgrp"], "pfds": info["pfds"]}
     waited = info["waited"]
     out = [{"ev": "reset", "run": idx, "cfg": c, "facts": facts}]
     returned = False
@@ -445,13 +596,15 @@ def assemble(idx, c, tr, info, dump):
                 if dump is not None and dump.get("pid") is not None:
                     out.append({"ev": "dump", "exe": dump["exe"], "argv": dump["argv"], "envp": dump["envp"], "cwd": dump["cwd"],
                                 "io": [fdent(dump["fds"], i) for i in range(3)], "uid": dump["uid"], "gid": dump["gid"],
-                                "pgrp": dump["pgrp"], "pid": dump["pid"], "stdin_read": dump.get("stdin_read", "")})
+                                "pgrp": dump["pgrp"], "pid": dump["pid"], "stdin_read": dump.get("stdin_read", ""),
+                                "allfds": [{"fd": x["fd"], "link": x["link"], "acc": x["acc"]} for x in dump["fds"]]})
                 else:
                     out.append({"ev": "anomaly", "what": "NoDump"})
         elif k == "exit":
             out.append({"ev": "exit", "task": e["task"], "status": e["status"]})
         elif k == "timeout":
             out.append({"ev": "anomaly", "what": "TimedOut"})
+    out += info["ios"]
     for w in waited:
         out.append({"ev": "waited", "res": w["res"], "status": w["status"]})
     out.append({"ev": "end"})
@@ -490,6 +643,8 @@ def observed_hist(run, plan):
 
 
 def conformance(run, plan, verdict):
+    if plan.get("synthetic"):
+        return []          # data-flow plans are predicted by SpawnFlow.tla, judged by the DataFlow clause
     h = observed_hist(run, plan)
     # Child::try_wait polls: wait4(WNOHANG) returning 0 any number of times before the final one
     p1 = []
@@ -560,6 +715,10 @@ def signature(plan, variant, clause, verdict):
     """identity of a violation: the clause, the steps that failed in that run (side/step), the build"""
     steps = sorted({"%s/%s" % ("caller" if f["proc"] == "P" else "child", f["step"]) for f in verdict.get("failed", [])})
     sig = {"clause": clause, "failed": "+".join(steps) if steps else "none", "start": VARIANTS[variant][1]}
+    if plan.get("round", 1) == 2:
+        sig["respawn"] = plan["cfg"].get("respawn")
+    if plan.get("flow"):
+        sig["flow_io"] = "/".join(plan["flow"]["plan"]["io"])
     if clause in ("OkMeansConfigured", "AttemptIsConfigured"):
         sig["mismatch"] = "+".join(sorted(verdict.get("mismatch", [])))
     return sig
@@ -580,7 +739,13 @@ def run(tier):
         futs = {v: ex.submit(tlc_plans, chk, tier, VARIANTS[v][1]) for v in set(MODEL_OF.values())}
         sfuts = model_selftest_jobs(chk, ex)
         cfut = ex.submit(_action_coverage, chk)
+        ffut = ex.submit(flow_outcomes, chk)
         tlcres = {v: futs[MODEL_OF[v]].result() for v in VARIANTS}
+        flowres = core.tlc_must_pass(ffut.result(), "SpawnFlow_MC")
+        chk.add_tlc(flowres)
+        flows = flowres.printed("FLOW")
+        if len(flows) != 3456:
+            raise core.ToolError("SpawnFlow_MC printed %d outcomes, expected 3456" % len(flows))
         chk.extra["model_selftest"] = {k: f.result() for k, f in sfuts.items()}
         cov = cfut.result()
         chk.extra["model_action_coverage_tiny"] = cov
@@ -599,11 +764,19 @@ def run(tier):
             raise core.ToolError("Spawn_MC generated no plan")
         if any(p["viol"] for p in plans):
             raise core.ToolError("model inconsistent: plan with violated clauses although AbsHolds passed")
+        round2 = {json.dumps([p["cfg"], p["fault"]], sort_keys=True): p for p in plans if p.get("round", 1) == 2}
+        plans = [p for p in plans if p.get("round", 1) == 1]
+        # a re-used Command needs both of its spawns predicted; the no-alloc API has no Command
+        plans = [p for p in plans if p["cfg"].get("respawn", "none") == "none"
+                 or (variant != "noalloc" and json.dumps([p["cfg"], p["fault"]], sort_keys=True) in round2)]
         if variant == "noalloc":
             plans = [p for p in plans if p["cfg"]["nenv"] == 0]     # no provided environment without alloc
         chosen, n_nofault, n_groups = select_plans(plans, tier, random.Random(seed))
+        fl_ok, fl_hang = select_flows(flows, tier, random.Random(seed))
         info = {"generated_by_tlc": len(plans), "executed_plans": len(chosen), "configurations_without_fault": n_nofault,
-                "fault_x_outcome_classes": n_groups, "model_states": res.distinct}
+                "fault_x_outcome_classes": n_groups, "model_states": res.distinct,
+                "flow_plans_executed": len(fl_ok), "flow_plans_blocking_by_themselves_executed": len(fl_hang),
+                "reused_command_plans": len([p for p in chosen if p["cfg"].get("respawn", "none") != "none"])}
         bindir = core.cargo_build(template=template, bins=None if template.startswith("probe/") else ["spawnd"])
         base = os.path.join(chk.work, "runs-" + variant)
         if os.path.isdir(base):
@@ -616,11 +789,25 @@ def run(tier):
             for kind in kinds:
                 i = len(jobs) + 1
                 jobs.append({"idx": i, "plan": p, "variant": variant, "rundir": os.path.join(base, "r%05d" % i),
-                             "bindir": bindir, "tools": tools, "helper": kind})
+                             "bindir": bindir, "tools": tools, "helper": kind,
+                             "plan2": round2.get(json.dumps([p["cfg"], p["fault"]], sort_keys=True))})
+        for o in fl_ok + fl_hang:
+            i = len(jobs) + 1
+            fcfg = {"nargs": 1, "nenv": 0, "cwd": "none", "uid": "unset", "gid": "unset", "pg": "unset", "io": list(o["plan"]["io"]),
+                    "pre": [], "prog": "ok", "wseq": ["wait"], "respawn": "none"}
+            fplan = {"cfg": fcfg, "fault": {"p": "-", "sys": "-", "k": 0, "err": 0}, "flow": o, "synthetic": True}
+            jobs.append({"idx": i, "plan": fplan, "variant": variant, "rundir": os.path.join(base, "r%05d" % i),
+                         "bindir": bindir, "tools": tools, "helper": "h7c", "plan2": None})
         t1 = time.time()
         with concurrent.futures.ThreadPoolExecutor(max_workers=3) as ex2:
             runs = list(ex2.map(execute, jobs))
-        done = [(r, j) for r, j in zip(runs, jobs) if r is not None]
+        done = []
+        for r, j in zip(runs, jobs):
+            if r is None:
+                continue
+            done.append((r, j))
+            if r.get("second") is not None and j.get("plan2") is not None:
+                done.append((r["second"], dict(j, plan=j["plan2"])))
         runs, jobs = [r for r, _ in done], [j for _, j in done]
         t2 = time.time()
         verdicts, jres = judge(chk, runs, variant)
@@ -662,7 +849,9 @@ def run(tier):
                 what = "%s violated (%s build): cfg=%s fault=%s -> returns=%s failed=%s child=%s execd=%s%s" % (
                     cl, variant, json.dumps(plan["cfg"], sort_keys=True), json.dumps(plan["fault"], sort_keys=True),
                     json.dumps(v["returns"]), json.dumps(v["failed"]), v["child"], v["execd"],
-                    (" mismatch=%s" % v["mismatch"]) if v.get("mismatch") else "")
+                    ((" mismatch=%s" % v["mismatch"]) if v.get("mismatch") else "") +
+                    ((" flow plan=%s got=%s" % (json.dumps(plan["flow"]["plan"]), json.dumps(v.get("ios")))) if plan.get("flow") else "") +
+                    (" (second spawn of the same Command)" if r.get("round") == 2 else ""))
                 chk.violate(sig, what, {"variant": variant, "plan": plan, "helper": job.get("helper"), "driver_plan": r["dplan"], "inject": r["inj"],
                                         "verdict": v, "events": r["events"]})
             if allruns % 97 == 1:
@@ -713,11 +902,17 @@ def record_fixture():
     base_cfg = {"nargs": 2, "nenv": 2, "cwd": "ok", "uid": "own", "gid": "own", "pg": "own",
                 "io": ["null", "pipe", "raw"], "pre": [0], "prog": "ok"}
     nof = {"p": "-", "sys": "-", "k": 0, "err": 0}
+    flow = {"plan": {"io": ["pipe", "pipe", "pipe"], "n": 3, "ops": ["W", "C", "RO", "RE", "wait"]}, "hung": False, "cgot": 3, "cerrs": 2,
+            "res": [{"op": "W", "res": "ok", "n": 3}, {"op": "C", "res": "ok", "n": 0}, {"op": "RO", "res": "eof", "n": 3},
+                    {"op": "RE", "res": "eof", "n": 2}, {"op": "wait", "res": "ok", "n": 0}]}
+    fcfg = dict(base_cfg, io=["pipe", "pipe", "pipe"], cwd="none", uid="unset", gid="unset", pg="unset", pre=[], nenv=0, nargs=1)
     plans = [{"cfg": base_cfg, "fault": nof},
-             {"cfg": base_cfg, "fault": {"p": "C", "sys": "chdir", "k": 1, "err": 13}}]
+             {"cfg": base_cfg, "fault": {"p": "C", "sys": "chdir", "k": 1, "err": 13}},
+             {"cfg": fcfg, "fault": nof, "flow": flow, "synthetic": True}]
     runs = []
     for i, p in enumerate(plans):
         r = execute({"idx": i + 1, "plan": p, "variant": "start", "bindir": bindir, "tools": tools,
+                     "helper": "h7c" if p.get("flow") else None,
                      "rundir": os.path.join("/tmp/c13-fixture", "r%d" % (i + 1))})
         runs.append({"idx": r["idx"], "events": r["events"]})
     with open(FIXTURE, "w") as fh:
@@ -731,7 +926,7 @@ def judge_selftest(chk):
     on the tree under test) are accepted; copies with one corrupted field / one dropped event must
     be rejected by TLC with the expected clause."""
     import copy
-    ok, err = json.load(open(FIXTURE))
+    ok, err, flw = json.load(open(FIXTURE))
 
     def variant(run, idx, f):
         r = copy.deepcopy(run)
@@ -748,7 +943,42 @@ def judge_selftest(chk):
                     break
             return evs
         return f
+    def upd_io(op, **kw):
+        def f(evs):
+            for e in evs:
+                if e["ev"] == "io" and e["op"] == op:
+                    e.update(kw)
+            return evs
+        return f
+
+    def stray(where):
+        def f(evs):
+            link = evs[0]["facts"]["pipes"][1]["link"]           # the stdout pipe
+            if where == "parent":
+                evs[0]["facts"]["pfds"].append({"fd": 99, "link": link, "acc": 1})
+            else:
+                for e in evs:
+                    if e["ev"] == "dump":
+                        e["allfds"].append({"fd": 99, "link": link, "acc": 0})
+            return evs
+        return f
+
+    def swap_out_err(evs):
+        ro = next(e for e in evs if e["ev"] == "io" and e["op"] == "RO")
+        re_ = next(e for e in evs if e["ev"] == "io" and e["op"] == "RE")
+        for k in ("n", "a", "b", "head", "res"):
+            ro[k], re_[k] = re_[k], ro[k]
+        return evs
     cases = [
+        ("unchanged-flow", flw, lambda evs: evs, None),
+        ("stdout-bytes-missing", flw, upd_io("RO", n=65536), "DataFlow"),
+        ("stdout-bytes-reordered", flw, upd_io("RO", b=1), "DataFlow"),
+        ("stdin-write-short", flw, upd_io("W", n=4096), "DataFlow"),
+        ("stdout-stderr-crossed", flw, swap_out_err, "DataFlow"),
+        ("stderr-marker-lost", flw, upd_io("RE", n=8, head="ERRMARK\n"), "DataFlow"),
+        ("stray-write-end-in-caller", flw, stray("parent"), "NoStrayPipeEnds"),
+        ("stray-read-end-in-child", flw, stray("child"), "NoStrayPipeEnds"),
+        ("hang-in-a-plan-that-cannot-block", flw, lambda evs: evs[:-1] + [{"ev": "anomaly", "what": "TimedOut"}, evs[-1]], "Anomaly:TimedOut"),
         ("unchanged-ok", ok, lambda evs: evs, None),
         ("unchanged-err", err, lambda evs: evs, None),
         ("return-in-child", err, setf("mark", lambda e: e["kind"] == "returned", task=2), "ReturnsOnlyInCaller"),
